@@ -176,6 +176,93 @@ func (o *Obligation) SlicedQuery(prelude string) (string, bool) {
 	return b.String(), true
 }
 
+// AbstractQuery is a coarser weakening of the query for goals that concern a few heap arrays only (e.g. a nesting
+// counter across a function with a hundred calls): assertions that mention none of the heap arrays in the goal's cone are
+// dropped, and Boolean definitions (branch conditions) that mention none of them become unconstrained constants, so the
+// control-flow skeleton (reach definitions) is kept while the data conditions are forgotten. Every step only removes
+// hypotheses, so `unsat` is conclusive; anything else means "try the full query".
+func (o *Obligation) AbstractQuery(prelude string) (string, bool) {
+	lines := o.enc.lines[:o.At]
+	defs := map[string]string{}
+	for _, l := range lines {
+		if strings.HasPrefix(l, "(define-fun ") {
+			f := strings.SplitN(l, " ", 3)
+			if len(f) == 3 {
+				defs[f[1]] = f[2]
+			}
+		}
+	}
+	baseOf := func(sym string) string {
+		if k := strings.LastIndex(sym, "!"); k > 0 {
+			return sym[:k]
+		}
+		return sym
+	}
+	keys := map[string]bool{}
+	seen := map[string]bool{}
+	var walk func(text string)
+	walk = func(text string) {
+		for _, sym := range symbolsOf(text) {
+			if seen[sym] {
+				continue
+			}
+			seen[sym] = true
+			base := baseOf(sym)
+			if strings.HasPrefix(base, "M.") || strings.HasPrefix(base, "H.") || strings.HasPrefix(base, "G.") || base == "MS" {
+				keys[base] = true
+			}
+			if strings.HasPrefix(base, "reach") || strings.HasPrefix(base, "cond") || strings.HasPrefix(base, "exit") {
+				continue
+			}
+			if d, ok := defs[sym]; ok {
+				walk(d)
+			}
+		}
+	}
+	walk(o.Goal)
+	if len(keys) == 0 || len(keys) > 6 {
+		return "", false
+	}
+	mentions := func(text string) bool {
+		for _, sym := range symbolsOf(text) {
+			if keys[baseOf(sym)] {
+				return true
+			}
+		}
+		return false
+	}
+	var b strings.Builder
+	b.WriteString(prelude)
+	b.WriteString(o.preambleExtras())
+	changed := 0
+	for _, l := range lines {
+		switch {
+		case strings.HasPrefix(l, "(assert "):
+			if !mentions(l) {
+				changed++
+				continue
+			}
+		case strings.HasPrefix(l, "(define-fun "):
+			f := strings.SplitN(l, " ", 3)
+			if len(f) == 3 && strings.HasPrefix(f[2], "() Bool ") {
+				base := baseOf(f[1])
+				if !strings.HasPrefix(base, "reach") && !strings.HasPrefix(base, "exit") && !mentions(f[2]) {
+					b.WriteString("(declare-const " + f[1] + " Bool)\n")
+					changed++
+					continue
+				}
+			}
+		}
+		b.WriteString(l)
+		b.WriteByte('\n')
+	}
+	if changed == 0 {
+		return "", false
+	}
+	b.WriteString("(assert (not " + o.Goal + "))\n(check-sat)\n")
+	return b.String(), true
+}
+
 // symbolsOf lists the generated symbols (name!N) of a piece of SMT text.
 func symbolsOf(text string) []string {
 	var out []string
